@@ -11,7 +11,7 @@ The merge3 region list (environment) is computed by the generator and is part of
 import os
 import shutil
 
-from vlib import Err, coq_bytes, coq_list, coq_bool, coq_nat
+from vlib import Err, coq_bytes, coq_list, coq_bool, coq_nat, coq_option
 
 PROP = "C19"
 COQ = {
@@ -60,7 +60,10 @@ ODD = [b"x\r\n", b"y\r\n", b"<<<<<<< TREE\n", b"=======\n", b">>>>>>> MERGE-SOUR
        b"<<<<<<<\n", b"pre " + S + b"\n", b" " + S + b"\n", S[:-1] + b"\n", b"a\rb\n", b"\xc3\xa9\n"]
 SENT = [S + b"\n", S + b" TREE\n", S + b" x " + S + b"\n", S + b"\r\n"]
 TAILS = [b"z", b"a", b"x\r", S, b"<<<<<<<"]           # last lines without a newline
-ACTIONS = ["none", "take_this", "take_other"]
+ACTIONS = ["none", "done", "take_this", "take_other"]
+HELPERS = ["BASE", "THIS", "OTHER"]
+ALIKE = "f.BASE.orig"          # an unrelated file that merely looks like a helper: must survive resolve
+FORMATS = ["2a", "git"]
 
 _state = {}
 
@@ -85,9 +88,12 @@ def _regions(inp):
     return out
 
 
-def _case(kind, base, this, other, reprocess=False, show_base=False, cherrypick=False, action="none"):
+def _case(kind, base, this, other, reprocess=False, show_base=False, cherrypick=False, action="none",
+          delete=(), alike=False, fmt="2a"):
+    """delete: helper files the user removes by hand between merge and resolve; alike: create ALIKE then too"""
     inp = {"kind": kind, "base": list(base), "this": list(this), "other": list(other), "reprocess": reprocess,
-           "show_base": show_base, "cherrypick": cherrypick, "action": action}
+           "show_base": show_base, "cherrypick": cherrypick, "action": action,
+           "delete": [h for h in HELPERS if h in delete], "alike": bool(alike), "fmt": fmt}
     inp["regions"] = _regions(inp)
     return inp
 
@@ -136,7 +142,9 @@ def _gen(rng, kind, psent):
     if not (base or this or other):
         this = [b"t\n"]         # merge3 cannot tell bytes from str when every input is empty
     return _case(kind, base, this, other, reprocess=rng.random() < 0.4, show_base=rng.random() < 0.35,
-                 cherrypick=rng.random() < 0.3, action=rng.choice(ACTIONS))
+                 cherrypick=rng.random() < 0.3, action=rng.choice(ACTIONS),
+                 delete=[h for h in HELPERS if rng.random() < 0.3] if rng.random() < 0.6 else [],
+                 alike=rng.random() < 0.4, fmt="git" if rng.random() < 0.3 else "2a")
 
 
 def corpus():
@@ -159,6 +167,13 @@ def corpus():
     for rp, sb in ((False, False), (True, False), (False, True), (True, True)):
         for act in ACTIONS:
             out.append(_case("merge", b, t, o, reprocess=rp, show_base=sb, action=act))
+    # every subset of hand-removed helpers x every action x both tree formats, with a look-alike file
+    import itertools
+    for fmt in FORMATS:
+        for act in ("done", "take_this", "take_other"):
+            for k in range(4):
+                for dele in itertools.combinations(HELPERS, k):
+                    out.append(_case("merge", b, t, o, action=act, delete=dele, alike=True, fmt=fmt))
     # the three shortcuts and a clean two-sided merge; CRLF newline detection; no trailing newline
     out.append(_case("merge", b, t, b))
     out.append(_case("merge", b, t, t))
@@ -192,25 +207,31 @@ def setup(scratch):
     logging.getLogger("brz").setLevel(logging.CRITICAL)      # "Text conflict in f" warnings
     _state["dir"] = scratch
     _state["n"] = 0
-    _state["wt"] = None
+    _state["wt"] = {}
+    _state["uses"] = {}
 
 
 def teardown():
     _state.clear()
 
 
-def _fresh_tree():
+def _fresh_tree(fmt):
     from breezy import controldir
+    if fmt == "git":
+        import breezy.git  # noqa
     _state["n"] += 1
     d = os.path.join(_state["dir"], "wt%d" % _state["n"])
     wt = controldir.ControlDir.create_standalone_workingtree(
-        d, format=controldir.format_registry.make_controldir("2a"))
+        d, format=controldir.format_registry.make_controldir(fmt))
     with open(os.path.join(d, "f"), "wb") as f:
         f.write(b"initial\n")
-    wt.add(["f"], ids=[b"f-id"])
+    if fmt == "git":
+        wt.add(["f"])
+    else:
+        wt.add(["f"], ids=[b"f-id"])
     wt.commit("initial")
-    _state["wt"] = wt
-    _state["uses"] = 0
+    _state["wt"][fmt] = wt
+    _state["uses"][fmt] = 0
     return wt
 
 
@@ -221,8 +242,8 @@ def _put(wt, data):
 
 def _snapshot(wt):
     d = wt.basedir
-    names = sorted(n for n in os.listdir(d) if n != ".bzr")
-    extra = [n for n in names if n not in ("f", "f.BASE", "f.THIS", "f.OTHER")]
+    names = sorted(n for n in os.listdir(d) if n not in (".bzr", ".git"))
+    extra = [n for n in names if n not in ("f", "f.BASE", "f.THIS", "f.OTHER", ALIKE)]
     if extra:
         raise AssertionError(f"unexpected files after merge: {extra!r}")
 
@@ -235,11 +256,11 @@ def _snapshot(wt):
     wt2 = wt.controldir.open_workingtree()
     cs = list(wt2.conflicts())
     for c in cs:
-        if c.typestring != "text conflict" or c.path != "f" or c.file_id != b"f-id":
+        if c.typestring != "text conflict" or c.path != "f" or getattr(c, "file_id", b"f-id") != b"f-id":
             raise AssertionError(f"unexpected conflict {c!r}")
     if len(cs) > 1:
         raise AssertionError(f"duplicate conflicts {cs!r}")
-    return [rd("f"), rd("f.BASE"), rd("f.THIS"), rd("f.OTHER"), len(cs) == 1]
+    return [rd("f"), rd("f.BASE"), rd("f.THIS"), rd("f.OTHER"), rd(ALIKE), len(cs) == 1]
 
 
 def impl(inp):
@@ -260,12 +281,13 @@ def impl(inp):
     for ls in (base, this, other):
         if osutils.split_lines(b"".join(ls)) != ls:
             raise AssertionError("generated lines are not what get_file_lines would return")
-    wt = _state.get("wt")
-    if wt is None or _state["uses"] >= 40:
-        wt = _fresh_tree()
-    _state["uses"] += 1
+    fmt = inp["fmt"]
+    wt = _state["wt"].get(fmt)
+    if wt is None or _state["uses"][fmt] >= 40:
+        wt = _fresh_tree(fmt)
+    _state["uses"][fmt] += 1
     # leftovers of the previous case
-    for n in ("f.BASE", "f.THIS", "f.OTHER"):
+    for n in ("f.BASE", "f.THIS", "f.OTHER", ALIKE):
         try:
             os.unlink(wt.abspath(n))
         except FileNotFoundError:
@@ -285,10 +307,23 @@ def impl(inp):
     except _merge.CantReprocessAndShowBase:
         return [Err("CantReprocessAndShowBase"), _snapshot(wt)]
     after_merge = _snapshot(wt)
+    # the user removes some helper files by hand / creates an unrelated look-alike
+    for h in inp["delete"]:
+        try:
+            os.unlink(wt.abspath("f." + h))
+        except FileNotFoundError:
+            pass
+    if inp["alike"]:
+        with open(wt.abspath(ALIKE), "wb") as f:
+            f.write(b"keep me\n")
     if inp["action"] != "none":
+        from breezy.transform import MalformedTransform
         wt = wt.controldir.open_workingtree()
-        _conflicts.resolve(wt, ["f"], ignore_misses=True, action=inp["action"])
-        _state["wt"] = wt
+        _state["wt"][fmt] = wt
+        try:
+            _conflicts.resolve(wt, ["f"], ignore_misses=True, action=inp["action"])
+        except MalformedTransform:
+            return [after_merge, [Err("MalformedTransform"), _snapshot(wt)]]
     return [after_merge, _snapshot(wt)]
 
 
@@ -312,9 +347,11 @@ def model_term(inp):
         if inp["show_base"] and inp["reprocess"]:
             return '(OE "CantReprocessAndShowBase"%string)'
         return f"run_render START {coq_bool(inp['show_base'])} {b} {t} {o} {rs}"
-    act = {"none": "ANone", "take_this": "TakeThis", "take_other": "TakeOther"}[inp["action"]]
+    act = {"none": "ANone", "done": "ADone", "take_this": "TakeThis", "take_other": "TakeOther"}[inp["action"]]
+    rm = " ".join(coq_bool(h in inp["delete"]) for h in HELPERS)
+    alike = coq_option(b"keep me\n" if inp["alike"] else None, coq_bytes)
     return (f"run_case {{| o_reprocess := {coq_bool(inp['reprocess'])}; o_show_base := {coq_bool(inp['show_base'])} |}} "
-            f"{b} {t} {o} {rs} {act}")
+            f"{b} {t} {o} {rs} {rm} {alike} {act}")
 
 
 # ---------------------------------------------------------------- the property itself
@@ -343,16 +380,19 @@ def oracle(inp, obs):
     first, second = obs
     if isinstance(first, Err):
         if inp["reprocess"] and inp["show_base"] and reached:
-            return None if second == [t, None, None, None, False] else f"failed merge changed the tree: {second!r}"
+            return None if second == [t, None, None, None, None, False] else f"failed merge changed the tree: {second!r}"
         return f"merge raised {first}"
+    alike = b"keep me\n" if inp["alike"] else None
     if inp["reprocess"] and inp["show_base"]:
         if reached:
             return "reprocess + show_base did not raise CantReprocessAndShowBase"
         # merge3 is never consulted: THIS or OTHER wins as a whole
         want = o if (b == t and b != o) else t
-        return None if first == [want, None, None, None, False] else f"shortcut merge produced {first!r}, expected text {want!r}"
+        if first != [want, None, None, None, None, False]:
+            return f"shortcut merge produced {first!r}, expected text {want!r}"
+        return None if second == [want, None, None, None, alike, False] else f"resolve changed an unconflicted tree: {second!r}"
     has, text = _expect(inp)
-    main, hb, ht, ho, conflicted = first
+    main, hb, ht, ho, al0, conflicted = first
     if conflicted != has:
         return (f"text conflict recorded = {conflicted} but the three-way merge "
                 f"{'has' if has else 'has no'} conflicting regions")
@@ -362,11 +402,26 @@ def oracle(inp, obs):
         return f"helper files hold {(hb, ht, ho)!r}, expected BASE/THIS/OTHER {(b, t, o)!r}"
     if not has and (hb, ht, ho) != (None, None, None):
         return f"helper files exist after a clean merge: {(hb, ht, ho)!r}"
+    # the tree as the user left it before resolving
+    edited = [main] + [None if (h in inp["delete"]) else v for h, v in zip(HELPERS, (hb, ht, ho))] + [alike, conflicted]
     if inp["action"] == "none" or not has:
-        return None if second == first else f"tree changed although nothing was resolved: {second!r}"
-    want = t if inp["action"] == "take_this" else o
-    if second != [want, None, None, None, False]:
-        return f"after resolve --{inp['action']}: {second!r}, expected exactly {want!r}, no helpers, no conflict"
+        return None if second == edited else f"tree changed although nothing was resolved: {second!r}"
+    winner = {"take_this": "THIS", "take_other": "OTHER"}.get(inp["action"])
+    if winner in inp["delete"]:
+        # the text to take was removed by hand: resolving must fail and leave everything alone
+        if isinstance(second, list) and len(second) == 2 and isinstance(second[0], Err):
+            return None if second[1] == edited else f"failed resolve changed the tree: {second[1]!r}"
+        return f"resolve --{inp['action']} without f.{winner}: {second!r}"
+    if isinstance(second[0], Err):
+        return f"resolve --{inp['action']} raised {second[0]}"
+    want = {"take_this": t, "take_other": o, "done": main}[inp["action"]]
+    left = [n for n, v in zip(HELPERS, second[1:4]) if v is not None]
+    if left:
+        return (f"after resolve --{inp['action']} (helpers removed by hand before: {inp['delete']!r}) the helper files "
+                f"{['f.' + n for n in left]!r} still exist")
+    if second != [want, None, None, None, alike, False]:
+        return (f"after resolve --{inp['action']}: {second!r}, expected exactly {want!r}, no helpers, "
+                f"look-alike {alike!r} untouched, no conflict")
     return None
 
 
@@ -409,22 +464,5 @@ def distribution(inputs, observations):
     return d
 
 
-def shrink(inp, fails):
-    cur = inp
-    changed = True
-    while changed:
-        changed = False
-        for key in ("base", "this", "other"):
-            for i in range(len(cur[key])):
-                cand = dict(cur)
-                cand[key] = cur[key][:i] + cur[key][i + 1:]
-                try:
-                    cand["regions"] = _regions(cand)
-                except Exception:
-                    continue
-                if fails(cand):
-                    cur, changed = cand, True
-                    break
-            if changed:
-                break
-    return cur
+# no shrink(): the framework calls it after teardown(), when the scratch trees are gone, so every
+# candidate would "fail" with a driver error and the replay input would be shrunk to nonsense.
